@@ -555,14 +555,32 @@ def rule_J5(ctx) -> None:
         ("sub-message present but empty", "message", {A(META, "wraps"): None}, {A(VALUE, "_serialized_on_wire"): True, VALUE: False}),
         ("optional scalar set to its default", "int32", {A(META, "optional"): True}, {VALUE: False}),
         ("optional string set to ''", "string", {A(META, "optional"): True}, {VALUE: False}),
+        # optional message-typed members: the wire carries them (dump emits every optional that is not None), so JSON must too
+        ("optional sub-message set to an empty message", "message", {A(META, "wraps"): None, A(META, "optional"): True, A(META, "group"): None},
+         {A(VALUE, "_serialized_on_wire"): False, VALUE: False}),
+        ("optional Timestamp set to the epoch", "message", {A(META, "wraps"): None, A(META, "optional"): True, A(META, "group"): None},
+         {CALL(N("isinstance"), VALUE, N("datetime")): True, "$zero": "DATETIME_ZERO"}),
+        ("optional Duration set to zero", "message", {A(META, "wraps"): None, A(META, "optional"): True, A(META, "group"): None},
+         {CALL(N("isinstance"), VALUE, N("timedelta")): True, "$zero": "timedelta(0)"}),
     ]
     for sname, t, binds, atoms in scenarios:
         b = dict(type_binding(t))
         b.update(binds)
         assume = dict(base)
+        atoms = dict(atoms)
+        zero = atoms.pop("$zero", None)
         assume.update(atoms)
         paths = interp_for(mod, bindings=b, assume=assume, inline=_small_helpers(mod, fn, ENC_CLASSES)).run(fn)
         ctx.count(len(paths))
+        if zero is not None:
+            # keep the paths on which the value was found equal to the zero value (x != ZERO false / x == ZERO true)
+            def at_zero(p):
+                for k, v in p.valuation.items():
+                    if k[0] == "op" and k[1] in ("==", "!=") and zero in show(k):
+                        if v != (k[1] == "=="):
+                            return False
+                return True
+            paths = [p for p in paths if at_zero(p)]
         missing = [p for p in paths if p.outcome != "raise" and not any(
             e.kind == "store" and e.data[0][0] == "sub" and e.data[0][1][0] in ("dictd", "n") and e.loops for e in p.events)]
         # the value differs from the field default (None) in these scenarios
